@@ -498,6 +498,11 @@ pub fn plan(property: &str, tier: &str) -> Option<CheckSpec> {
             let mut lp_rules = rules.to_vec();
             lp_rules.push(Rule::Ctx);
             b.add_batch(local_limit_programs(), false, false, &lp_rules);
+            // every well-nested sequence of local operations with two or more local spans and an attachment
+            let lt = local_tree_programs(if quick { 5 } else { 6 });
+            for c in [false, true] {
+                b.add_batch(lt.clone(), c, false, &rules);
+            }
             rule_text = format!("bounded-exhaustive generated programs ({n1} single-actor + {n2} two-actor lock-step) x every placement of 1 atomic collector cycle at a ring-push boundary x both configurations; non-trivial: a collector cycle falls between the first and last queue command");
             bound_text = format!("<= {} spans, <= {} local spans, scope depth <= 2, <= {} operations; 1 cycle placed anywhere + final flush", g.max_spans, g.max_locals, g.max_len);
         }
